@@ -138,14 +138,40 @@ Definition oracle_at (T : N) (steps : list xstep) (outs : list step_out) (lives 
       (locks0 =? 0) && forallb (oracle_tx steps outs lives es r) (N_seq T)
   end.
 
+(* a restart from an OLDER SNAPSHOT of the coordinator (save_to_store at a step boundary, then
+   load_from_store + the log + recover_from_wal): recovery statistics, the pending table, and the
+   lock handles whose key is still locked (sorted) *)
+Definition sobs := (list N * cobs * list N)%type.
+Definition sobs_eqb (a b : sobs) : bool :=
+  let '(s, o, l) := a in let '(s', o', l') := b in
+  list_eqb N.eqb s s' && cobs_eqb o o' && list_eqb N.eqb l l'.
+
+(* "locks of completed transactions are released" and "a logged outcome is never reversed", with
+   the lock table and the pending table of an older snapshot in place: a transaction whose
+   completion is inside the surviving log is not pending after the recovery and none of the keys
+   it had locked ([owners] = (handle, transaction) of every lock taken in the case) is locked *)
+Definition oracle_snap (T : N) (owners : list (N * N)) (recs : list (N * tentry)) (k : N) (so : option sobs) : bool :=
+  match so with
+  | None => false
+  | Some (_, (o0, _), locked) =>
+      let es := surviving recs k in
+      forallb (fun tx =>
+        if has_any_complete es tx then
+          (match nth (N.to_nat tx) o0 None with None => true | Some _ => false end)
+          && forallb (fun ht => negb (N.eqb (snd ht) tx && existsb (N.eqb (fst ht)) locked)) owners
+        else true) (N_seq T)
+  end.
+
 (* one generation as seen on the implementation *)
 Definition gen_rec :=
   (N * list xstep * list step_out * list cobs * list N * N * list byte * list (N * tentry)
-   * list (N * N * N * option robs) * N)%type.
+   * list (N * N * N * option robs) * N * list (N * N * N * N * option sobs))%type.
    (* clock at start, steps, replies, live observations (n+1), file length after each step,
       file length after open, file bytes, decoded records with end offsets,
-      crash observations (from, to, step, obs), continuing offset *)
-Definition gens_case := (tab * N * list gen_rec)%type.
+      crash observations (from, to, step, obs), continuing offset,
+      snapshot restarts (from, to, step, b, obs): crash offsets, b = number of steps completed when
+      the snapshot was saved *)
+Definition gens_case := (tab * N * list (N * N) * list gen_rec)%type.
 Definition range (a z step : N) : list N :=
   map (fun i => a + i * step) (N_seq (N.succ ((z - a) / (N.max 1 step)))).
 
@@ -169,10 +195,27 @@ Fixpoint live_oracle (recs : list (N * tentry)) (prev : N) (steps : list xstep) 
        end) && live_oracle recs e ss os es'
   | _, _, _ => true
   end.
+(* (c) "for every following sequence of recovery calls ... and further transactions": a further
+   recover_from_wal() call on the live coordinator leaves every pending transaction pending, in its
+   phase and with its votes (the log only confirms what the coordinator holds; a transaction still
+   collecting votes is not in the way of anything the log restores) *)
+Fixpoint recover_keeps (steps : list xstep) (outs : list step_out) (lives : list cobs) : bool :=
+  match steps, outs, lives with
+  | s :: ss, o :: os, l0 :: ((l1 :: _) as ls) =>
+      (match s, o with
+       | XRecover, 4 :: _ =>
+           forallb (fun p => match fst p with None => true | Some x => txobs_eqb (Some x) (snd p) end)
+                   (combine (fst l0) (fst l1))
+       | _, _ => true
+       end) && recover_keeps ss os ls
+  | _, _, _ => true
+  end.
 
-Definition gen_oracle (T : N) (g : gen_rec) : bool :=
-  let '(now0, steps, outs, lives, ends, base, fbytes, recs, crashes, chosen) := g in
-  live_oracle recs base steps outs ends &&
+Definition gen_oracle (T : N) (owners : list (N * N)) (g : gen_rec) : bool :=
+  let '(now0, steps, outs, lives, ends, base, fbytes, recs, crashes, chosen, snaps) := g in
+  live_oracle recs base steps outs ends && recover_keeps steps outs lives &&
+  forallb (fun r => let '(a, z, stp, b, so) := r in
+                    forallb (fun k => oracle_snap T owners recs k so) (range a z stp)) snaps &&
   forallb (fun r => let '(a, z, stp, ro) := r in
                     forallb (fun k => oracle_at T steps outs lives recs k ro) (range a z stp)) crashes.
 
@@ -202,7 +245,7 @@ Fixpoint run_obs (d : dcoord) (steps : list xstep) : dcoord * list step_out * li
   end.
 
 Definition timed_out_ids (now : N) (c : coord) : list N :=
-  map fst (filter (fun p => timeout (snd p) <? now - started (snd p)) (pending c)).
+  map fst (filter (fun p => (timeout (snd p) <? now - started (snd p)) && negb (phase (snd p) =? COMMITTING)) (pending c)).
 
 (* instance A: natural completion of every transaction id, in order *)
 Fixpoint probe_a (now : N) (c : coord) (txs : list N) : coord * list (list N) :=
@@ -234,11 +277,25 @@ Definition rec_obs (now : N) (f : list byte) (k : N) : option robs :=
   | None => None
   end.
 
+(* the coordinator state a snapshot saved after the first b steps holds *)
+Fixpoint state_after (d : dcoord) (steps : list xstep) (b : nat) : dcoord :=
+  match b, steps with
+  | S b', s :: r => state_after (fst (xstep_run d s)) r b'
+  | _, _ => d
+  end.
+Definition locked_handles (c : coord) : list N := sort_N (map fst (locks c)).
+Definition snap_obs (c0 : coord) (now : N) (f : list byte) (k : N) : option sobs :=
+  match restart_from (deser_of t) crc32u gen_tx_tail_repair gen_vote_scan_live gen_vote_first_wins c0 now
+                     (firstn (N.to_nat k) f) with
+  | Some (d, stats) => Some (stats, observe T (co d), locked_handles (co d))
+  | None => None
+  end.
+
 Fixpoint gens_model (d : dcoord) (gs : list gen_rec) : N :=
   match gs with
   | [] => V_OK
   | g :: rest =>
-      let '(now0, steps, outs, lives, ends, base, fbytes, recs, crashes, chosen) := g in
+      let '(now0, steps, outs, lives, ends, base, fbytes, recs, crashes, chosen, snaps) := g in
       let d := DC (co d) (file d) now0 in
       let '(d1, mouts, os, es) := run_obs d steps in
       if negb (N.eqb base (N.of_nat (length (file d)))) then V_MISMATCH
@@ -249,10 +306,14 @@ Fixpoint gens_model (d : dcoord) (gs : list gen_rec) : N :=
       else if negb (forallb (fun r => let '(a, z, stp, ro) := r in
                                 forallb (fun k => option_eqb robs_eqb (rec_obs (clock d1) fbytes k) ro) (range a z stp)) crashes)
            then V_MISMATCH
+      else if negb (forallb (fun r => let '(a, z, stp, b, so) := r in
+                                let c0 := co (state_after d steps (N.to_nat b)) in
+                                forallb (fun k => option_eqb sobs_eqb (snap_obs c0 (clock d1) fbytes k) so) (range a z stp)) snaps)
+           then V_MISMATCH
       else match rest with
            | [] => V_OK
            | g2 :: _ =>
-               let '(now2, _, _, _, _, _, _, _, _, _) := g2 in
+               let '(now2, _, _, _, _, _, _, _, _, _, _) := g2 in
                match mrestart now2 (firstn (N.to_nat chosen) fbytes) with
                | Some (d2, _) => gens_model d2 rest
                | None => V_MISMATCH
@@ -262,6 +323,6 @@ Fixpoint gens_model (d : dcoord) (gs : list gen_rec) : N :=
 End M.
 
 Definition check_gens (c : gens_case) : N :=
-  let '(t, T, gs) := c in
-  if negb (forallb (gen_oracle T) gs) then V_VIOLATION
+  let '(t, T, owners, gs) := c in
+  if negb (forallb (gen_oracle T owners) gs) then V_VIOLATION
   else gens_model t T (dc0 0) gs.
